@@ -1,4 +1,4 @@
-CONSTANT Cfg <- Cfg_seq_cancel
+CONSTANT CfgSet <- S_seq_cancel
 INIT MCInit
 NEXT Next
 CHECK_DEADLOCK FALSE
